@@ -990,6 +990,16 @@ def stepInt (st : DSt) (r : Report) (ln : Nat) (cmd obs : Toks) : Option (DSt ×
     | [variant] =>
       some (st, specCheck r st ln "iexpect.plant" (res.startsWith ("err " ++ variant)) ("err " ++ variant) res)
     | _ => none
+  | ["iexprval", bits] => do
+    -- SPEC (C10): the operator the pipeline queued is RZ of the expression's mathematical value
+    let v ← tokFloat bits
+    let toks := st.lastSummary
+    let afterTail := (toks.dropWhile (· != "tail")).drop 2
+    match parseCVec afterTail, Op.rz (halfPhase v) 1 with
+    | some (iv, _), some o =>
+      let want := MultiOp.applyArr o (probeState 1)
+      some (st, specCheck r st ln "c10.expr" (closeVec want iv) (showVec want) (showVec iv))
+    | _, _ => some (st, specCheck r st ln "c10.expr" false "a queued rz" (String.intercalate " " (toks.take 10)))
   | ["isnap"] => some ({ st with snap := st.lastSummary }, r)
   | ["iunchanged"] =>
     some (st, specCheck r st ln "iunchanged" (st.snap == st.lastSummary) "session summary unchanged"
@@ -1005,6 +1015,9 @@ def stepInt (st : DSt) (r : Report) (ln : Nat) (cmd obs : Toks) : Option (DSt ×
       match obs with
       | "parseerr" :: e =>
         some ({ st with lastRes := "parseerr " ++ String.intercalate " " e }, r)
+      | "hang" :: e =>
+        -- SPEC (C12): parsing must return
+        some ({ st with lastRes := "hang" }, r.specfail st ln "c12.hang" "a result or an error value" ("hang " ++ String.intercalate " " e))
       | "nodes" :: k :: rest =>
         match splitOn2 rest with
         | [nodeToks, res, summary] =>
